@@ -725,7 +725,10 @@ def frame_ext_steps(p, level="full"):
                call(X, "drop_duplicates", subset=LS(n1)), call(X, "drop_duplicates", subset=LS(n1), keep="last"),
                daskonly(X, "shuffle", n1), daskonly(X, "repartition", npartitions=2), daskonly(X, "repartition", npartitions=5)]
         for c in other:
-            srt += [call(X, "sort_values", c), call(X, "set_index", c)]
+            srt += [call(X, "sort_values", c), call(X, "set_index", c), call(X, "set_index", c, drop=False)]
+        # every drop / append combination of set_index on both numeric columns (presorted or not is a property of the base frame)
+        srt += [call(X, "set_index", n1, drop=False), call(X, "set_index", n0, append=True), call(X, "set_index", n0, drop=False, append=True),
+                call(X, "set_index", n1, append=True)]
         out += srt
         core += [call(X, "set_index", n0), call(X, "reset_index"), call(X, "sort_values", n0), daskonly(X, "repartition", npartitions=2)]
         # ---- groupby (C38)
@@ -759,6 +762,22 @@ def frame_ext_steps(p, level="full"):
                    lib("concat", ("el", (X, OTHER))), lib("concat", ("el", (C(n0), C(n1))), axis=1), lib("concat", ("el", (C(n0), C(n1)))),
                    lib("merge_asof", E(call(X, "sort_values", n0)), E(call(OTHER, "sort_values", "w")), left_on=n0, right_on="w"),
                    lib("merge", E(X), E(OTHER), on=n1)]
+            # concat operands that share columns of the same dtype KIND but another width (int64/int32/int8, float64/float32, Int64/Int32)
+            def narrower(c, small=False):
+                t = p[c].dtype
+                if kinds[c] == "int":
+                    return ("int8" if small else "int32") if t.itemsize > 4 or small and t.itemsize > 1 else "int64"
+                if kinds[c] == "float":
+                    return "float32" if t.itemsize > 4 else "float64"
+                return "Int32" if str(t) != "Int32" else "Int64"
+
+            nar_all = D(*[(c, narrower(c)) for c in num])
+            jn += [lib("concat", ("el", (X, call(X, "astype", D((n0, narrower(n0))))))), lib("concat", ("el", (call(X, "astype", D((n0, narrower(n0)))), X))),
+                   lib("concat", ("el", (X, call(X, "astype", nar_all)))), lib("concat", ("el", (call(X, "astype", nar_all), X))),
+                   lib("concat", ("el", (X, call(X, "astype", D((n1, narrower(n1, True))))))),
+                   lib("concat", ("el", (X, call(("cols", X, (n1, n0)), "astype", nar_all))), join="inner")]
+            # (Series operands are not repeated with narrow dtypes: axis-0 concat of Series never casts its inputs, which is already
+            # recorded as concat:partition-meta-dtype:* / concat:partition-meta-name:* findings)
             out += jn
             core += [jn[0], lib("concat", ("el", (X, X)))]
     # ---- windows (C46)
